@@ -23,6 +23,10 @@ func main() {
 		err = cmdEgress(os.Args[2:])
 	case "ingress":
 		err = cmdIngress(os.Args[2:])
+	case "auth":
+		err = cmdAuth(os.Args[2:])
+	case "signing":
+		err = cmdSigning(os.Args[2:])
 	default:
 		err = fmt.Errorf("unknown subcommand %q", os.Args[1])
 	}
